@@ -1015,6 +1015,8 @@ func (area) Run(c *core.Ctx) error {
 			caseGlueFixed(c, r)
 		case i == 10:
 			caseWorker(c, r)
+		case i == 11:
+			caseRound10Fixed(c, r)
 		default:
 			switch k := r.Intn(100); {
 			case k < 42:
@@ -1029,10 +1031,12 @@ func (area) Run(c *core.Ctx) error {
 				caseIntervals(c, r)
 			case k < 91:
 				caseDeterminism(c, r)
-			case k < 95:
+			case k < 94:
 				caseWorker(c, r)
-			default:
+			case k < 97:
 				caseGlue(c, r)
+			default:
+				caseFieldMachine(c, r, 3)
 			}
 		}
 	}
